@@ -4,6 +4,10 @@ import json, os, subprocess
 ROOT = os.path.dirname(os.path.dirname(os.path.abspath(__file__)))
 
 CHECKS = {
+    "C17": dict(level="model_checking", design="DESIGN.md section 5 C17",
+                technique="TLC model checking of the defining equations on Strings.tla + TLC validation of recorded built-in results against the definitions",
+                text="D: TLC checks the laws (LEFT$+MID$ split, clamping, INSTR least position, LEN additivity, UCASE$/LCASE$ touch only letters, trims remove exactly blanks, SPACE$ = STRING$(n,32), VAL(STR$(k)) = k, errors for negative counts / non-positive starts) on every string up to length 3 (5) over {a, B, blank, CHR$(200)} and all counts in -1..7. V: the same argument space through real BASIC programs with arguments rendered as literals, variables and nested calls; every result or error code is a record validated by TLC against the DEFINITIONS in Strings.tla.",
+                note="Trusted: stdout decoding of results, TLC. INSTR with an empty search string not generated."),
     "C19": dict(level="model_checking", design="DESIGN.md section 5 C19",
                 technique="TLC model checking of Bits.tla + TLC validation of call records of the real bit primitives and of BASIC programs against it",
                 text="D: TLC checks on all 65536 words that Twos16 is a bijection, NOT n = -n-1, the byte split round-trips, the AND/OR laws (idempotence, identities, complement, De Morgan, inclusion-exclusion on a boundary set) and that the IEEE field<->byte layout is an inverse pair. V: every word through i32_to_bytes / NOT, every byte pair through bytes_to_i32, boundary and random pairs through qb_and / qb_or, doubles given by IEEE fields through f64_to_bytes / bytes_to_f64 (powers of two, boundary mantissas, subnormals, beyond 2^63, random patterns); the same through BASIC (AND/OR/NOT, PEEK/POKE, MKD$/CVD); each record validated by TLC against Bits.tla. Millions of random pairs are bridged against the machine operations.",
